@@ -1089,16 +1089,26 @@ void c34_case(Ctx& c, Rng& r) {
     const bool manual = r.chance(1, 4);
     if (manual) { Config::AdvertisedEndpoint e{}; e.host = r.chance(1, 2) ? "203.0.113.77" : "example.org"; e.port = static_cast<std::uint16_t>(r.chance(1, 2) ? 0 : 1 + r.below(60000)); e.manual = true; cfg.advertised_endpoints.push_back(e); }
     if (r.chance(1, 6)) { Config::AdvertisedEndpoint e{}; e.host = "stale.auto.example"; e.port = 1; e.manual = false; cfg.advertised_endpoints.push_back(e); }
-    const std::string stun_class = nonroutable_class(g_stun_address);
     Node node(fx::peer_id_n(1, 0xD1), cfg);
+    // one case in three restarts the transport of the same node once or twice, each time behind a different STUN answer
+    // (a laptop changing networks, a daemon whose uplink was renumbered): the oracle applies to every start on its own
+    const int rounds = r.chance(1, 3) ? 2 + static_cast<int>(r.below(2)) : 1;
+    for (int round = 0; round < rounds; ++round) {
+    if (round > 0) {
+        g_stun_address = gen_address(r, v6);
+        g_stun_port = static_cast<std::uint16_t>(r.next());
+        g_stun_fail = r.chance(1, 12);
+        c.note("advertise.restarts-with-another-stun-answer");
+    }
+    const std::string stun_class = nonroutable_class(g_stun_address);
     node.start_transport(0);
-    const auto manifest = node.store_chunk(fx::chunk_id_n(1), r.bytes(8), seconds(60));
+    const auto manifest = node.store_chunk(fx::chunk_id_n(1 + static_cast<unsigned>(round)), r.bytes(8), seconds(60));
     const auto eff = node.config();
     node.stop_transport();
     c.note("advertise.cases");
     c.note(stun_class.empty() ? "advertise.stun-address-routable" : "advertise.stun-address-nonroutable");
     const char* modes[] = {"on", "warn", "off"};
-    const auto desc = [&] { return J().kv("stun", g_stun_fail ? "failed" : g_stun_address).kv("class", stun_class).kv("mode", modes[static_cast<int>(cfg.advertise_auto_mode)]).kv("allow_private", cfg.advertise_allow_private).kv("control_host", cfg.control_host).kv("manual", manual).kv("conflict", eff.auto_advertise_conflict); };
+    const auto desc = [&] { return J().kv("stun", g_stun_fail ? "failed" : g_stun_address).kv("class", stun_class).kv("mode", modes[static_cast<int>(cfg.advertise_auto_mode)]).kv("allow_private", cfg.advertise_allow_private).kv("control_host", cfg.control_host).kv("manual", manual).kv("conflict", eff.auto_advertise_conflict).kv("start", round + 1); };
     // what the node publishes automatically: non-manual advertised endpoints and non-manual ("transport") manifest hints
     std::vector<std::pair<std::string, std::string>> published;   // (host, where)
     for (auto& e : eff.advertised_endpoints) if (!e.manual) published.emplace_back(e.host, "advertised-endpoint");
@@ -1126,8 +1136,9 @@ void c34_case(Ctx& c, Rng& r) {
         c.note("advertise.must-publish-cases");
         if (!stun_published) c.violation("C34:publish:routable-address-not-published-in-mode-on", desc().str());
     }
+    }   // rounds
     c.sig(hx::mix(hx::hash_str(g_stun_address), hx::mix(static_cast<int>(cfg.advertise_auto_mode), hx::mix(cfg.advertise_allow_private, hx::hash_str(cfg.control_host)))));
-    if (c.cur_case % 499 == 0) c.sample(desc().kv("published", published.size()).str());
+    if (c.cur_case % 499 == 0) c.sample(J().kv("stun", g_stun_address).kv("mode", static_cast<int>(cfg.advertise_auto_mode)).kv("allow_private", cfg.advertise_allow_private).kv("control_host", cfg.control_host).kv("starts", rounds).str());
 }
 HX_PROPERTY("C34", c34_case);
 
